@@ -176,17 +176,15 @@ def build(streams):
             if pad is None:
                 pad = bytes((-len(hdr) - len(data)) % 4)
             w.put(bp + "padding", pad)
+            u = _block_uncompressed(b)
+            if u is None and (b.get('check') is None or b.get('index_uncompressed') is None):
+                u = parse_block_payload(b, data)       # best effort: decode the given Compressed Data with glue
             chk = b.get('check')
             if chk is None:
-                u = _block_uncompressed(b)
-                if u is None and _crc.check_size(check):
-                    r = parse_block_payload(b, data)
-                    u = r
                 chk = _crc.check_bytes(check, u if u is not None else b"")
             w.put(bp + "check", chk)
-            u = _block_uncompressed(b)
             records.append((b.get('index_unpadded', len(hdr) + len(data) + len(chk)),
-                            b.get('index_uncompressed', len(u) if u is not None else b.get('uncompressed_len', 0))))
+                            b.get('index_uncompressed', len(u) if u is not None else 0)))
         ix = s.get('index') or {}
         istart = len(w.buf)
         if ix.get('raw') is not None:
